@@ -18,6 +18,25 @@ CLAIMS = {
              "tied to /repo by an exhaustive correspondence (8192 codes x DF 0/4/16/20, 4096 fields x TC 9-18/20-22, guards).",
         note="int(N*3.28084) is modelled as floor(N*328084/100000) (float rounding checked exhaustively by the correspondence).",
         design="8 C07", technique="Lean 4 proof (decide +kernel over the whole 13-bit domain, lifted) + exhaustive correspondence"),
+    "C08": dict(
+        text="Theorems: squawk returns the four octal digits for all 8192 identity patterns independent of X (kernel enumeration "
+             "lifted to all digits); idcode / surv.identity / emergency_squawk are squawk of the documented bit positions under their DF/TC "
+             "guards; FS, DR, IIS, IDS, CA are exactly the documented slices for any other bit content, RuntimeError for other DFs. "
+             "Correspondence: all 8192 patterns x 4 carriers, FSxDRxIISxIDS product, CA, interrogator code 0..127 through the PI overlay, DF guards.",
+        note="interrogator code theorem rests on the C01 CRC development.",
+        design="8 C08", technique="Lean 4 proof (kernel enumeration + structural frame theorems) + exhaustive correspondence"),
+    "C09": dict(
+        text="Theorems: the regenerated surface movement table equals the DO-260B quantisation table on all 128 codes; altitude_diff is "
+             "+-(N-1)*25 ft of the documented field under the TC19 guard (partial: code 127 -> None, open finding). The TC19 decoder is "
+             "tied by correspondence over subtype x signs x boundary values x vertical rates and checked against an independent DO-260B oracle.",
+        note="track angle uses atan2 (trusted libm); int(math.sqrt n) modelled as Nat.sqrt.",
+        design="8 C09", technique="Lean 4 proof (table certificate, field theorems) + product/exhaustive correspondence"),
+    "C10": dict(
+        text="Theorems: callsign_roundtrip (any eight legal 6-bit codes in ME bits 9-56 of a TC1-4 frame come back as the eight characters, "
+             "for every other bit content: structural, covers 37^8), cs20_roundtrip (all 64^8), category_spec, and the regenerated chars "
+             "tables equal Annex 10 Table 3-9 on every legal code. Correspondence: every (position, code), random legal strings, guards.",
+        note="callsign() deletes '#': position independence for illegal codes is not claimed (nor required by the property).",
+        design="8 C10", technique="Lean 4 proof (structural round-trip over build/slice lemmas + table certificate) + correspondence"),
 }
 
 
